@@ -1,0 +1,55 @@
+//go:build verif
+
+// Package verifhook provides named observation points for external
+// verification harnesses (build tag `verif`). A harness registers a callback
+// per point; the callback runs synchronously on the goroutine that reached
+// the point and may block to impose a schedule.
+package verifhook
+
+import (
+	"sync"
+	"sync/atomic"
+)
+
+type Callback func(arg any)
+
+var (
+	mu        sync.RWMutex
+	callbacks = map[string]Callback{}
+	counts    sync.Map // string -> *atomic.Int64
+)
+
+// Set registers (or, with nil, removes) the callback of a point.
+func Set(point string, cb Callback) {
+	mu.Lock()
+	defer mu.Unlock()
+	if cb == nil {
+		delete(callbacks, point)
+		return
+	}
+	callbacks[point] = cb
+}
+
+// Count returns how many times a point has been reached.
+func Count(point string) int64 {
+	if c, ok := counts.Load(point); ok {
+		return c.(*atomic.Int64).Load()
+	}
+	return 0
+}
+
+// At marks an observation point.
+func At(point string, arg any) {
+	c, ok := counts.Load(point)
+	if !ok {
+		c, _ = counts.LoadOrStore(point, new(atomic.Int64))
+	}
+	c.(*atomic.Int64).Add(1)
+
+	mu.RLock()
+	cb := callbacks[point]
+	mu.RUnlock()
+	if cb != nil {
+		cb(arg)
+	}
+}
